@@ -71,6 +71,20 @@ def check_config(W, k, coloc, fam, rng, res):
         except ValueError as e:
             mech = 'kaisa-float-integrality-rejects-valid-fraction' if 'must produce an integer' in str(e) else None
             return res.violation(f'KAISAAssignment rejected grad_worker_fraction={k}/{W} (world_size={W}, rank {r}): {e}', dict(case, work=None), mechanism=mech)
+    # a second, unrelated assignment object built AFTER these in the same process (another model of the job, with the same
+    # layer names but other costs and another gradient-worker count): nothing of it may leak into the objects under test
+    if rng.random() < 0.5:
+        k2 = rng.choice(divisors(W))
+        costs = [dict(v) for v in work.values()]
+        rng.shuffle(costs)
+        decoy_work = {l: c for l, c in zip(work, costs[::-1])}
+        try:
+            decoy = KAISAAssignment(decoy_work, local_rank=rng.choice(ranks), world_size=W, grad_worker_fraction=k2 / W, group_func=lambda x: tuple(sorted(x)),
+                                    colocate_factors=not coloc)
+            res.count('decoy_assignments_built')
+            case['decoy'] = dict(k=k2, colocate=not coloc)
+        except ValueError:
+            decoy = None
     res.count('relation_checks')
     wparts = KAISAAssignment.partition_grad_workers(W, k)
     rparts = KAISAAssignment.partition_grad_receivers(W, k)
